@@ -319,3 +319,10 @@ func traverseCustomProperty(property path.Property, t traversal, fetchNodes bool
 
 	return []regoPathResultInternal{r}
 }
+
+// pathComment is the comment line naming the property path a block of generated code queries. The
+// path is quoted as written in the profile, where line breaks are legal whitespace between its
+// terms: in the one-line comment they are written as blanks.
+func pathComment(p path.PropertyPath) string {
+	return "#  querying path: " + strings.NewReplacer("\n", " ", "\r", " ").Replace(p.Source())
+}
